@@ -379,6 +379,8 @@ def run_case(case, tier="quick", seed=0, do_replay=True):
     res["solver_s"] = round(ctx.tq, 3)
     res["queries"] = ctx.nq
     res["unknown_queries"] = ctx.n_unknown
+    res["fallback_queries"] = getattr(ctx, "n_fallback", 0)
+    res["fallback_decided"] = getattr(ctx, "n_fallback_decided", 0)
     res["atoms"] = {f"{k[0]}": sum(len(v) for kk, v in ctx.atoms.items() if kk[0] == k[0]) for k in ctx.atoms}
     res["nodes"] = ctx.nnodes
     res["inexact_float_constants"] = ctx.inexact_floats
@@ -1237,6 +1239,9 @@ def finish_property(prop, results, tier, seed, encoded, bounds, assumptions, t0,
             "queries": sum(r.get("queries", 0) for r in results) + extra.get("queries", 0),
             "solver_s": round(sum(r.get("solver_s", 0) for r in results) + extra.get("solver_s", 0), 2),
             "paths": sum(r.get("paths", 0) or 0 for r in results),
+            "nlsat_fallback": {"asked": sum(r.get("fallback_queries", 0) or 0 for r in results),
+                               "decided": sum(r.get("fallback_decided", 0) or 0 for r in results),
+                               "note": "queries the QF_NRA tactic left undecided, put to the plain nlsat pipeline (qfnra-nlsat) with half the time-out"},
             "canaries_killed": sum(1 for r in results if r.get("canary") == "killed"),
             "canaries_run": sum(1 for r in results if r.get("canary")),
             "cvc5_crosscheck": {
